@@ -418,3 +418,26 @@ def r_storage_state(A, ctx, scope, rule="R-STORAGE-STATE"):
                          "coordinates differently and return different points") if bad else "",
                    loc=loc(f, bad[0][1]) if bad else None)
     ctx.floor(rule, n, scope.get("floor", 15))
+
+
+def r_f32spec(A, ctx, scope, rule="R-F32SPEC"):
+    ctx.rule(rule, "float32 specification keeps the layout of every attribute: in `spec_to_float32` the type given to an "
+             "array attribute is derived from the attribute's own type (`dtype.copy(dtype=float32)` or the type itself), "
+             "never a literal of fixed rank (`float32[:]`): specs contain 2-D arrays (QuadraticMultiTask.XtY), and a "
+             "rank-1 literal makes the float32 clone fail inside compiled code instead of matching the float64 one")
+    m = A.prog.modules.get("skglm.utils.jit_compilation")
+    f = m.functions.get("spec_to_float32") if m else None
+    if f is None:
+        raise AnalysisError("skglm.utils.jit_compilation.spec_to_float32 missing")
+    # specs with arrays of rank > 1 exist (otherwise a rank-1 literal would be harmless)
+    ranks2 = [(c.name, nm) for c in A.prog.datafits + A.prog.penalties for nm, ty in (A.prog.spec_of(c) or [])
+              if "[:, :" in ty.replace(" ", "") or "[:,:" in ty.replace(" ", "")]
+    lits = [x for x in ast.walk(f.node) if isinstance(x, ast.Subscript) and isinstance(x.value, ast.Name)
+            and x.value.id in ("float32", "float64") and isinstance(x.slice, (ast.Slice, ast.Tuple))]
+    ctx.ob(rule, f"{f.fq}", not (lits and ranks2),
+           what=(f"spec_to_float32 assigns the fixed-rank type `{norm_src(lits[0])}` to array attributes, but "
+                 f"{ranks2[0][0]}.{ranks2[0][1]} (and {len(ranks2) - 1} more) are 2-D: the float32 clone of that class "
+                 "cannot be initialised (error inside compiled code) while the float64 one works") if lits and ranks2 else "",
+           loc=loc(f, lits[0]) if lits else None)
+    ctx.extra["rank2_spec_attributes"] = len(ranks2)
+    ctx.floor(rule + "/rank-2 attributes", len(ranks2), 1)
